@@ -22,5 +22,6 @@ CONSTANTS
   CRoot = 3
   DropLockBug = TRUE
   CachedLevelBug = FALSE
+  StaleParentReadBug = FALSE
 INVARIANTS LPWWhenFree
 CHECK_DEADLOCK FALSE
